@@ -282,7 +282,7 @@ func checkTree(spec *ukit.Spec, idx int, res *ux.Result) {
 			var key, diff string
 			var panicked, lsPanic string
 			keys := map[string]string{}
-			e := &mcrt.Explorer{MaxPreempt: 0, MaxDelay: -1, MaxDeviate: 1, MaxSteps: 1 << 20, Body: func() {
+			e := &mcrt.Explorer{Embedded: true, MaxPreempt: 0, MaxDelay: -1, MaxDeviate: 1, MaxSteps: 1 << 20, Body: func() {
 				b, sp := buildTree(spec)
 				for _, ns := range nd.seq {
 					b.apply(sp, ns)
